@@ -73,9 +73,9 @@ package ship
 //@   modifies c.handshakeTimerRunning
 
 // ---- everything a handshake step may touch ----
-//@ modset hs(c) := $decoded, c.smeState, c.smeError, c.handshakeTimerRunning, c.handshakeTimerType, c.lastReceivedWaitingValue, c.remoteShipID, c.dataReader, c.spineBuffer, c.shutdownOnce.$done, $Trusted[norm(c.remoteSKI)], c.$reports, c.$setup, $idReports[c.remoteSKI], $lastId[c.remoteSKI], c.$closeCalled, c.$closeScheduled, c.$everApproved, c.dataWriter.$wsClosed, c.dataWriter.$writes
+//@ modset hs(c) := $decoded, c.smeState, c.smeError, c.handshakeTimerRunning, c.handshakeTimerType, c.lastReceivedWaitingValue, c.remoteShipID, c.dataReader, c.spineBuffer, c.shutdownOnce.$done, $Trusted[norm(c.remoteSKI)], c.$reports, c.$schedReports, c.$setup, $idReports[c.remoteSKI], $lastId[c.remoteSKI], c.$closeCalled, c.$closeScheduled, c.$everApproved, c.dataWriter.$wsClosed, c.dataWriter.$writes
 //@ modset er(c) := @cl(c), c.smeState, c.smeError, c.handshakeTimerType, $Trusted[norm(c.remoteSKI)]
-//@ modset cl(c) := c.handshakeTimerRunning, c.shutdownOnce.$done, c.$reports, c.$closeCalled, c.$closeScheduled, c.dataWriter.$wsClosed, c.dataWriter.$writes
+//@ modset cl(c) := c.handshakeTimerRunning, c.shutdownOnce.$done, c.$reports, c.$schedReports, c.$closeCalled, c.$closeScheduled, c.dataWriter.$wsClosed, c.dataWriter.$writes
 
 // object invariant: the state is one the role can reach from INIT_START along diagram edges
 //@ pred roleOK(r string, s int) := reach(r, model.CmiStateInitStart, s)
@@ -97,6 +97,10 @@ package ship
 //@ pred closing(s int) := terminal(s) || s == model.SmeStateComplete
 //@ macro DMODE(c) := (c.shutdownOnce.$done ==> closing(c.smeState))
 //@ macro KEEPID(c) := c.$setup == old(c.$setup) && $idReports[c.remoteSKI] == old($idReports[c.remoteSKI]) && $lastId[c.remoteSKI] == old($lastId[c.remoteSKI]) && c.remoteShipID == old(c.remoteShipID)
+// connection end accounting (C11-F1): HandleConnectionClosed is called or scheduled exactly once, by the Once
+//@ macro REP(c) := (c.$reports + c.$schedReports)
+//@ macro F1STEP(c) := (@REP(c) == old(@REP(c)) + ite(c.shutdownOnce.$done && !old(c.shutdownOnce.$done), 1, 0) && (old(c.shutdownOnce.$done) ==> c.shutdownOnce.$done))
+//@ objinv (c *ShipConnection) [C11] F1-once: @REP(c) == ite(c.shutdownOnce.$done, 1, 0)
 // ---- shorthand ----
 //@ macro TINV(c) := tinv(c.smeState, c.handshakeTimerRunning, c.shutdownOnce.$done)
 //@ macro CLOSEOK(c) := closeOK(c.smeState, c.shutdownOnce.$done, c.$closeScheduled)
@@ -111,6 +115,8 @@ package ship
 //@   ensures c.shutdownOnce.$done != old(c.shutdownOnce.$done) ==> c.shutdownOnce.$done && !c.handshakeTimerRunning
 //@   ensures c.shutdownOnce.$done == old(c.shutdownOnce.$done) ==> c.handshakeTimerRunning == old(c.handshakeTimerRunning)
 //@   ensures c.$closeScheduled == old(c.$closeScheduled)
+//@   ensures !old(c.dataWriter.$wsClosed) ==> c.shutdownOnce.$done == old(c.shutdownOnce.$done)
+//@   ensures [C11] F1-step: @F1STEP(c)
 //@   modifies @cl(c)
 //@ func (c *ShipConnection).sendShipModel(typ, payload) [C04]
 //@   requires [C04] E5-quiet: !terminal(c.smeState) || c.smeState == model.SmeHelloStateAbort || typ == model.MsgTypeEnd
@@ -119,6 +125,8 @@ package ship
 //@   ensures c.shutdownOnce.$done != old(c.shutdownOnce.$done) ==> c.shutdownOnce.$done && !c.handshakeTimerRunning
 //@   ensures c.shutdownOnce.$done == old(c.shutdownOnce.$done) ==> c.handshakeTimerRunning == old(c.handshakeTimerRunning)
 //@   ensures c.$closeScheduled == old(c.$closeScheduled)
+//@   ensures !old(c.dataWriter.$wsClosed) ==> c.shutdownOnce.$done == old(c.shutdownOnce.$done)
+//@   ensures [C11] F1-step: @F1STEP(c)
 //@   modifies @cl(c)
 //@ func (c *ShipConnection).handshakeHelloSend(phase, waitingDuration, prolongation) [C04]
 //@   requires [C04] E5-quiet: !terminal(c.smeState) || c.smeState == model.SmeHelloStateAbort
@@ -127,26 +135,34 @@ package ship
 //@   ensures c.shutdownOnce.$done != old(c.shutdownOnce.$done) ==> c.shutdownOnce.$done && !c.handshakeTimerRunning
 //@   ensures c.shutdownOnce.$done == old(c.shutdownOnce.$done) ==> c.handshakeTimerRunning == old(c.handshakeTimerRunning)
 //@   ensures c.$closeScheduled == old(c.$closeScheduled)
+//@   ensures !old(c.dataWriter.$wsClosed) ==> c.shutdownOnce.$done == old(c.shutdownOnce.$done)
+//@   ensures [C11] F1-step: @F1STEP(c)
 //@   modifies @cl(c)
 
 // ---- closing ----
+// Assume/guarantee: a transport that closed by itself has been reported (ReportConnectionError ->
+// CloseConnection) before any other entry runs, so a graceful close of a completed connection finds the
+// transport open (otherwise the announce send would re-enter the sync.Once: see DESIGN.md, observations).
 //@ func (c *ShipConnection).CloseConnection(safe, code, reason) entry [C04,C11]
+//@   requires safe && c.smeState == model.SmeStateComplete && !c.shutdownOnce.$done ==> !c.dataWriter.$wsClosed
 //@   ensures c.smeState == old(c.smeState)
 //@   ensures c.shutdownOnce.$done
 //@   ensures !old(c.shutdownOnce.$done) ==> !c.handshakeTimerRunning
 //@   ensures old(c.shutdownOnce.$done) ==> c.handshakeTimerRunning == old(c.handshakeTimerRunning)
 //@   ensures old(c.$closeScheduled) ==> c.$closeScheduled
 //@   ensures !safe ==> c.$closeScheduled == old(c.$closeScheduled)
+//@   ensures [C11] F1-step: @F1STEP(c)
 //@   modifies @cl(c)
-//@ closure (c *ShipConnection).CloseConnection$1$1
-//@   spawns c.$closeScheduled
-//@   modifies c.$closeScheduled
+//@ closure (c *ShipConnection).CloseConnection$1$1 [C11]
+//@   spawns c.$closeScheduled && c.$schedReports == old(c.$schedReports) + 1
+//@   modifies c.$closeScheduled, c.$schedReports
 //@ func (c *ShipConnection).endHandshakeWithError(err) [C04]
 //@   requires err != nil
 //@   requires @READER(c)
 //@   ensures c.smeState == model.SmeStateError && c.shutdownOnce.$done && !c.handshakeTimerRunning
 //@   ensures old(c.$closeScheduled) ==> c.$closeScheduled
 //@   ensures @READER(c)
+//@   ensures [C11] F1-step: @F1STEP(c)
 //@   modifies @er(c)
 //@ func (c *ShipConnection).abortProtocolHandshake(err) [C04]
 //@   requires !terminal(c.smeState)
@@ -154,6 +170,7 @@ package ship
 //@   ensures c.smeState == model.SmeStateError && c.shutdownOnce.$done && !c.handshakeTimerRunning
 //@   ensures old(c.$closeScheduled) ==> c.$closeScheduled
 //@   ensures @READER(c)
+//@   ensures [C11] F1-step: @F1STEP(c)
 //@   modifies @er(c)
 
 // ---- dispatch ----
@@ -167,6 +184,7 @@ package ship
 //@   ensures [C04] E6-closed: @CLOSEOK(c)
 //@   ensures @DMODE(c)
 //@   ensures [C01] G4-reader: @READER(c)
+//@   ensures [C11] F1-step: @F1STEP(c)
 //@   modifies @hs(c)
 //@ closure (c *ShipConnection).handleState$1
 //@   spawns c.$closeScheduled
@@ -184,6 +202,7 @@ package ship
 //@   ensures [C04] E6-closed: @CLOSEOK(c)
 //@   ensures @DMODE(c)
 //@   ensures [C01] G4-reader: @READER(c)
+//@   ensures [C11] F1-step: @F1STEP(c)
 //@   modifies @hs(c)
 //@ func (c *ShipConnection).handleShipMessage(timeout, message) [C04,C01]
 //@   requires roleOK(c.role, c.smeState)
@@ -192,6 +211,7 @@ package ship
 //@   ensures [C04] E4-timer: @TINV(c)
 //@   ensures [C04] E6-closed: @CLOSEOK(c)
 //@   ensures [C01] G4-reader: @READER(c)
+//@   ensures [C11] F1-step: @F1STEP(c)
 //@   modifies @hs(c)
 
 // ---- handlers (one per state) ----
@@ -204,6 +224,7 @@ package ship
 //@   ensures [C04] E6-closed: @CLOSEOK(c)
 //@   ensures @DMODE(c)
 //@   ensures [C01] G4-reader: @READER(c)
+//@   ensures [C11] F1-step: @F1STEP(c)
 //@   modifies @hs(c)
 //@ func (c *ShipConnection).handshakeInit_cmiStateServerWait(message) [C04]
 //@   decreases rank(c.role, c.smeState), len(message), 1
@@ -214,6 +235,7 @@ package ship
 //@   ensures [C04] E6-closed: @CLOSEOK(c)
 //@   ensures @DMODE(c)
 //@   ensures [C01] G4-reader: @READER(c)
+//@   ensures [C11] F1-step: @F1STEP(c)
 //@   modifies @hs(c)
 //@ func (c *ShipConnection).handshakeInit_cmiStateClientWait(message) [C04]
 //@   decreases rank(c.role, c.smeState), len(message), 1
@@ -224,6 +246,7 @@ package ship
 //@   ensures [C04] E6-closed: @CLOSEOK(c)
 //@   ensures @DMODE(c)
 //@   ensures [C01] G4-reader: @READER(c)
+//@   ensures [C11] F1-step: @F1STEP(c)
 //@   modifies @hs(c)
 //@ func (c *ShipConnection).handshakeHello_Init() [C04,C01]
 //@   decreases rank(c.role, c.smeState), 0, 1
@@ -234,6 +257,7 @@ package ship
 //@   ensures [C04] E6-closed: @CLOSEOK(c)
 //@   ensures @DMODE(c)
 //@   ensures [C01] G4-reader: @READER(c)
+//@   ensures [C11] F1-step: @F1STEP(c)
 //@   modifies @hs(c)
 //@ func (c *ShipConnection).handshakeHello_ReadyListen(timeout, message) [C04,C01]
 //@   decreases rank(c.role, c.smeState), len(message), 1
@@ -244,6 +268,7 @@ package ship
 //@   ensures [C04] E6-closed: @CLOSEOK(c)
 //@   ensures @DMODE(c)
 //@   ensures [C01] G4-reader: @READER(c)
+//@   ensures [C11] F1-step: @F1STEP(c)
 //@   modifies @hs(c)
 //@ func (c *ShipConnection).handshakeHello_ReadyTimeout() [C04]
 //@   decreases rank(c.role, c.smeState), 0, 0
@@ -254,6 +279,7 @@ package ship
 //@   ensures [C04] E6-closed: @CLOSEOK(c)
 //@   ensures @DMODE(c)
 //@   ensures [C01] G4-reader: @READER(c)
+//@   ensures [C11] F1-step: @F1STEP(c)
 //@   modifies @hs(c)
 //@ func (c *ShipConnection).handshakeHello_Abort() [C04]
 //@   decreases rank(c.role, c.smeState), 0, 1
@@ -264,6 +290,7 @@ package ship
 //@   ensures [C04] E6-closed: @CLOSEOK(c)
 //@   ensures @DMODE(c)
 //@   ensures [C01] G4-reader: @READER(c)
+//@   ensures [C11] F1-step: @F1STEP(c)
 //@   modifies @hs(c)
 //@ func (c *ShipConnection).handshakeHello_PendingInit() [C04,C01]
 //@   decreases rank(c.role, c.smeState), 0, 1
@@ -274,6 +301,7 @@ package ship
 //@   ensures [C04] E6-closed: @CLOSEOK(c)
 //@   ensures @DMODE(c)
 //@   ensures [C01] G4-reader: @READER(c)
+//@   ensures [C11] F1-step: @F1STEP(c)
 //@   modifies @hs(c)
 //@ func (c *ShipConnection).handshakeHello_PendingListen(timeout, message) [C04,C01]
 //@   decreases rank(c.role, c.smeState), len(message), 1
@@ -284,6 +312,7 @@ package ship
 //@   ensures [C04] E6-closed: @CLOSEOK(c)
 //@   ensures @DMODE(c)
 //@   ensures [C01] G4-reader: @READER(c)
+//@   ensures [C11] F1-step: @F1STEP(c)
 //@   modifies @hs(c)
 //@ func (c *ShipConnection).handshakeHello_PendingProlongationRequest() [C04]
 //@   decreases rank(c.role, c.smeState), 0, 0
@@ -294,6 +323,7 @@ package ship
 //@   ensures [C04] E6-closed: @CLOSEOK(c)
 //@   ensures @DMODE(c)
 //@   ensures [C01] G4-reader: @READER(c)
+//@   ensures [C11] F1-step: @F1STEP(c)
 //@   modifies @hs(c)
 //@ func (c *ShipConnection).handshakeHello_PendingTimeout() [C04]
 //@   decreases rank(c.role, c.smeState), 0, 0
@@ -304,6 +334,7 @@ package ship
 //@   ensures [C04] E6-closed: @CLOSEOK(c)
 //@   ensures @DMODE(c)
 //@   ensures [C01] G4-reader: @READER(c)
+//@   ensures [C11] F1-step: @F1STEP(c)
 //@   modifies @hs(c)
 //@ func (c *ShipConnection).handshakeProtocol_Init() [C04]
 //@   decreases rank(c.role, c.smeState), 0, 1
@@ -314,6 +345,7 @@ package ship
 //@   ensures [C04] E6-closed: @CLOSEOK(c)
 //@   ensures @DMODE(c)
 //@   ensures [C01] G4-reader: @READER(c)
+//@   ensures [C11] F1-step: @F1STEP(c)
 //@   modifies @hs(c)
 //@ func (c *ShipConnection).handshakeProtocol_smeProtHStateServerListenProposal(message) [C04]
 //@   decreases rank(c.role, c.smeState), len(message), 1
@@ -324,6 +356,7 @@ package ship
 //@   ensures [C04] E6-closed: @CLOSEOK(c)
 //@   ensures @DMODE(c)
 //@   ensures [C01] G4-reader: @READER(c)
+//@   ensures [C11] F1-step: @F1STEP(c)
 //@   modifies @hs(c)
 //@ func (c *ShipConnection).handshakeProtocol_smeProtHStateServerListenConfirm(message) [C04]
 //@   decreases rank(c.role, c.smeState), len(message), 1
@@ -334,6 +367,7 @@ package ship
 //@   ensures [C04] E6-closed: @CLOSEOK(c)
 //@   ensures @DMODE(c)
 //@   ensures [C01] G4-reader: @READER(c)
+//@   ensures [C11] F1-step: @F1STEP(c)
 //@   modifies @hs(c)
 //@ func (c *ShipConnection).handshakeProtocol_smeProtHStateClientInit() [C04]
 //@   decreases rank(c.role, c.smeState), 0, 0
@@ -344,6 +378,7 @@ package ship
 //@   ensures [C04] E6-closed: @CLOSEOK(c)
 //@   ensures @DMODE(c)
 //@   ensures [C01] G4-reader: @READER(c)
+//@   ensures [C11] F1-step: @F1STEP(c)
 //@   modifies @hs(c)
 //@ func (c *ShipConnection).handshakeProtocol_smeProtHStateClientListenChoice(message) [C04]
 //@   decreases rank(c.role, c.smeState), len(message), 1
@@ -354,6 +389,7 @@ package ship
 //@   ensures [C04] E6-closed: @CLOSEOK(c)
 //@   ensures @DMODE(c)
 //@   ensures [C01] G4-reader: @READER(c)
+//@   ensures [C11] F1-step: @F1STEP(c)
 //@   modifies @hs(c)
 //@ func (c *ShipConnection).handshakePin_Init() [C04]
 //@   decreases rank(c.role, c.smeState), 0, 1
@@ -364,6 +400,7 @@ package ship
 //@   ensures [C04] E6-closed: @CLOSEOK(c)
 //@   ensures @DMODE(c)
 //@   ensures [C01] G4-reader: @READER(c)
+//@   ensures [C11] F1-step: @F1STEP(c)
 //@   modifies @hs(c)
 //@ func (c *ShipConnection).handshakePin_smePinStateCheckListen(message) [C04]
 //@   decreases rank(c.role, c.smeState), len(message), 1
@@ -374,6 +411,7 @@ package ship
 //@   ensures [C04] E6-closed: @CLOSEOK(c)
 //@   ensures @DMODE(c)
 //@   ensures [C01] G4-reader: @READER(c)
+//@   ensures [C11] F1-step: @F1STEP(c)
 //@   modifies @hs(c)
 //@ func (c *ShipConnection).handshakeAccessMethods_Init() [C04]
 //@   decreases rank(c.role, c.smeState), 0, 1
@@ -384,6 +422,7 @@ package ship
 //@   ensures [C04] E6-closed: @CLOSEOK(c)
 //@   ensures @DMODE(c)
 //@   ensures [C01] G4-reader: @READER(c)
+//@   ensures [C11] F1-step: @F1STEP(c)
 //@   modifies @hs(c)
 //@ func (c *ShipConnection).handshakeInit_cmiStateEvaluate(message) [C04]
 //@   decreases rank(c.role, c.smeState), len(message), 0
@@ -395,6 +434,7 @@ package ship
 //@   ensures [C04] E4-timer: @TINV(c)
 //@   ensures [C04] E6-closed: @CLOSEOK(c)
 //@   ensures @READER(c)
+//@   ensures [C11] F1-step: @F1STEP(c)
 //@   modifies @hs(c)
 
 // ---- access methods: SHIP ID pinning (C09) and approval (C01) ----
@@ -415,6 +455,7 @@ package ship
 //@   ensures [C09] P4-setup: c.$setup == old(c.$setup) + ite(c.smeState == model.SmeStateComplete, 1, 0)
 //@   ensures [C09] P5-mismatch: c.smeState == model.SmeStateApproved ==> false
 //@   atcall ReportServiceShipID [C09] P3-order: c.$setup == old(c.$setup)
+//@   ensures [C11] F1-step: @F1STEP(c)
 //@   modifies @hs(c)
 //@ iface api.ShipConnectionInfoProviderInterface.SetupRemoteDevice(ski, writeI)
 //@   requires [C01] G3-setup: cast(writeI, ShipConnection).smeState == model.SmeStateApproved && ski == cast(writeI, ShipConnection).remoteSKI
@@ -442,25 +483,30 @@ package ship
 // has been removed from the registry, so approve/abort reach only connections that are not closed.
 //@ func (c *ShipConnection).Run() entry [C04]
 //@   requires !c.shutdownOnce.$done
+//@   ensures [C11] F1-step: @F1STEP(c)
 //@   modifies @hs(c)
 //@ func (c *ShipConnection).ApprovePendingHandshake() entry [C04,C01]
 //@   requires [C01] G0-approved: $Trusted[norm(c.remoteSKI)]
 //@   requires !c.shutdownOnce.$done
 //@   ensures [C04] E3-step: stepOK(c.role, old(c.smeState), c.smeState)
+//@   ensures [C11] F1-step: @F1STEP(c)
 //@   modifies @hs(c)
 //@ func (c *ShipConnection).AbortPendingHandshake() entry [C04,C10]
 //@   requires !c.shutdownOnce.$done
 //@   ensures [C04] E3-step: stepOK(c.role, old(c.smeState), c.smeState)
 //@   ensures [C10,C01] D3-abort: old(c.smeState) == model.SmeHelloStatePendingListen || old(c.smeState) == model.SmeHelloStateReadyListen ==> terminal(c.smeState)
+//@   ensures [C11] F1-step: @F1STEP(c)
 //@   modifies @hs(c)
 //@ func (c *ShipConnection).ReportConnectionError(err) entry [C04,C13]
 //@   ensures [C04] E3-step: stepOK(c.role, old(c.smeState), c.smeState)
 //@   ensures [C13] T5-closed: c.shutdownOnce.$done
+//@   ensures [C11] F1-step: @F1STEP(c)
 //@   modifies @hs(c)
 //@ func (c *ShipConnection).HandleIncomingWebsocketMessage(message) entry [C04,C01,C06]
 //@   requires !c.shutdownOnce.$done
 //@   ensures [C04] E3-step: stepOK(c.role, old(c.smeState), c.smeState)
 //@   atcall HandleShipPayloadMessage [C01] G4-deliver: c.smeState == model.SmeStateComplete || c.smeState == model.SmeStateError
+//@   ensures [C11] F1-step: @F1STEP(c)
 //@   modifies @hs(c)
 //@ closure (c *ShipConnection).setHandshakeTimer$1 [C04]
 //@   requires !c.shutdownOnce.$done && roleOK(c.role, c.smeState) && validRole(c.role) && c.infoProvider != nil && c.dataWriter != nil
@@ -468,6 +514,7 @@ package ship
 //@   ensures [C04] E3-step: stepOK(c.role, old(c.smeState), c.smeState)
 //@   ensures [C04] E4-timer: @TINV(c)
 //@   ensures [C04] E6-closed: @CLOSEOK(c)
+//@   ensures [C11] F1-step: @F1STEP(c)
 //@   modifies @hs(c)
 //@ func (c *ShipConnection).shipModelFromMessage(message)
 //@   ensures result.1 == nil ==> result.0 != nil
